@@ -7,6 +7,8 @@ package configmigrate_test
 
 import (
 	"fmt"
+	"os"
+	"path/filepath"
 	"strings"
 	"testing"
 
@@ -158,4 +160,49 @@ func TestVFC13RegressNullDocument(t *testing.T) {
 		{"empty_file", ""},
 		{"only_comment", "# nothing here\n"},
 	})
+}
+
+// TestVFC13Golden: the repository's own golden inputs (one per schema version,
+// testdata/TestMigrateConfig_Migrate/vN/input.yml) are documents valid under
+// their schema; unlike the repository's test, which applies one step to each,
+// they are upgraded all the way here, with every oracle, and handed to the
+// loader.  (Enumeration, no rapid.)
+func TestVFC13Golden(t *testing.T) {
+	vfkit.Begin(t)
+	root := os.Getenv("VERIF_REPO")
+	if root == "" {
+		root = "/repo"
+	}
+	dir := filepath.Join(root, "internal", "configmigrate", "testdata", "TestMigrateConfig_Migrate")
+	n := 0
+	for v := 1; v <= vfLast; v++ {
+		body, err := os.ReadFile(filepath.Join(dir, fmt.Sprintf("v%d", v), "input.yml"))
+		if err != nil {
+			// not every version has a golden file (v28 has none)
+			continue
+		}
+		n++
+		in, derr := vfDecode(body)
+		if derr != nil || in == nil {
+			t.Errorf("golden input v%d does not decode: %v", v, derr)
+
+			continue
+		}
+		c := &vfCase{body: body, in: in, ver: vfVersionOf(in), dirs: vfNewDirs(t)}
+		if pass, isStr := in["auth_pass"].(string); isStr && c.ver < 5 {
+			// step 5 (bcrypt) is expensive: three split points only
+			c.pass = &pass
+			c.splits = []int{c.ver + 1, 5, vfLast - 1}
+		}
+		vfC13.Eval()
+		vfC13.Class("class:b_golden")
+		vfC13.Nontrivial(fmt.Sprintf("golden|v%d", v))
+		res := vfCheckValid(t, c, nil)
+		vfSample("golden_input", c, res, vfMap{"file": fmt.Sprintf("v%d/input.yml", v)})
+		c.dirs.remove()
+	}
+	if n == 0 {
+		t.Logf("no golden inputs found under %s", dir)
+		vfC13.Class("golden:missing")
+	}
 }
